@@ -165,13 +165,59 @@ func TestC13_Sort(t *testing.T) {
 		in := make([]jv.Val, n)
 		keys := make([]jv.Val, n)
 		bad := false
-		for i := 0; i < n; i++ {
-			var k jv.Val
+		// the keys in input order: random, or in one of the orders that sort
+		// routines treat specially (already sorted, reversed, non-increasing or
+		// non-decreasing runs with ties, organ pipe, sorted except for one
+		// element)
+		drawn := make([]jv.Val, n)
+		for i := range drawn {
 			if numeric {
-				k = jv.VNumText(gen.Pick(t, "k", pool))
+				drawn[i] = jv.VNumText(gen.Pick(t, "k", pool))
 			} else {
-				k = jv.VStr(gen.Pick(t, "k", pool))
+				drawn[i] = jv.VStr(gen.Pick(t, "k", pool))
 			}
+		}
+		if pattern := rapid.IntRange(0, 11).Draw(t, "inputorder"); pattern >= 6 && n > 1 {
+			less := func(a, b jv.Val) bool {
+				if numeric {
+					return a.R.Cmp(b.R) < 0
+				}
+				return a.S < b.S
+			}
+			sort.SliceStable(drawn, func(i, j int) bool { return less(drawn[i], drawn[j]) })
+			rev := func(a []jv.Val) {
+				for i, j := 0, len(a)-1; i < j; i, j = i+1, j-1 {
+					a[i], a[j] = a[j], a[i]
+				}
+			}
+			switch pattern {
+			case 7, 8: // non-increasing (ties stay adjacent)
+				rev(drawn)
+			case 9: // organ pipe: up, then down
+				rev(drawn[n/2:])
+			case 10: // sorted except for one element moved to the front or the end
+				if rapid.Bool().Draw(t, "movetofront") {
+					last := drawn[n-1]
+					copy(drawn[1:], drawn[:n-1])
+					drawn[0] = last
+				} else {
+					first := drawn[0]
+					copy(drawn, drawn[1:])
+					drawn[n-1] = first
+				}
+			case 11: // descending runs of a fixed length
+				run := gen.Pick(t, "runlen", []int{2, 3, 7, 12, 20})
+				for i := 0; i < n; i += run {
+					j := i + run
+					if j > n {
+						j = n
+					}
+					rev(drawn[i:j])
+				}
+			}
+		}
+		for i := 0; i < n; i++ {
+			k := drawn[i]
 			if i == spoil {
 				// a key of the other kind or of another type
 				switch rapid.IntRange(0, 3).Draw(t, "spoilkind") {
